@@ -404,3 +404,106 @@ def run(ctx):
             ctx.ob("R10.8", "%s: preceding value" % q, not leak, site=A.where(c), detail={"argument": A.src(args_[5]), "can_point_into": leak},
                    what="%s passes `%s` as the value preceding a range; it can point into the conversion scratch buffer %s" % (q, A.src(args_[5]), leak))
     ctx.require(n8 >= 2, "R10.8: list-context calls of rtosc_print_arg_val not found")
+
+    # ---- R10.11
+    ctx.rule("R10.11", "SHIFT-SIGN: in the float -> second-fraction conversion a shift by a computed signed amount happens only on a branch where the sign of the amount has been tested (small exact fractions make the amount negative; assertions are compiled out)")
+    ut = ctx.ast("rtosc-time.c")
+    f2s = ut.function("rtosc_float2secfracs")
+    n11 = 0
+    for x in A.walk(ut.body(f2s)):
+        if not (x.get("kind") in ("CompoundAssignOperator", "BinaryOperator") and x.get("opcode") in ("<<=", ">>=", "<<", ">>")):
+            continue
+        amt = A.strip_casts(A.kids(x)[1])
+        neg = False
+        if amt.get("kind") == "UnaryOperator" and amt.get("opcode") == "-":
+            amt, neg = A.strip_casts(A.kids(amt)[0]), True
+        vid = A.ref_id(amt)
+        dv = ut.by_id.get(vid) if vid else None
+        if dv is None or dv.get("kind") != "VarDecl" or FD.ctype(A.qtype(dv))[0] != "int" or not FD.ctype(A.qtype(dv))[2]:
+            continue
+        n11 += 1
+        tested = None
+        child = x
+        for p_ in ut.ancestors(x):
+            if p_.get("kind") in ("IfStmt", "ConditionalOperator"):
+                c_ = A.strip_casts(A.kids(p_)[0])
+                if c_.get("kind") == "BinaryOperator" and c_.get("opcode") in (">=", ">", "<", "<=") and vid in {A.ref_id(k_) for k_ in A.kids(c_)} and 0 in [A.int_literal(k_) for k_ in A.kids(c_)]:
+                    # which side are we on, and does it make the effective amount non-negative?
+                    on_true = _inside10(A.kids(p_)[1], child)
+                    try:
+                        ok_vals = [v_ for v_ in (-3, -1, 0, 1, 5) if bool(FD.Eval(env={vid: v_}).ev(c_)) == on_true]
+                    except FD.Unknown:
+                        ok_vals = None
+                    if ok_vals is not None:
+                        tested = all((-v_ if neg else v_) >= 0 for v_ in ok_vals)
+                    break
+            if p_.get("kind") == "FunctionDecl":
+                break
+            child = p_
+        ctx.ob("R10.11", "rtosc_float2secfracs: shift by `%s`" % A.src(A.kids(x)[1]), bool(tested), site=A.where(x), detail={"amount": A.src(A.kids(x)[1]), "sign_tested": tested},
+               key="R10.11:rtosc_float2secfracs:shift",
+               what="rtosc_float2secfracs shifts by `%s` without having tested its sign: for an exact fraction such as 0x1.8p-31 the amount is negative (undefined shift, wrong fraction)" % A.src(A.kids(x)[1]))
+    ctx.require(n11 >= 1, "R10.11: no shift by a computed amount found in rtosc_float2secfracs")
+
+    # ---- R10.12
+    ctx.rule("R10.12", "FRACTION-HAS-POINT: the printer cuts the second fraction of a time tag out of a formatted float at its '.'; the format it builds must therefore produce a '.' for every floating_point_precision 0..9 (a precision of at least 1, or the '#' flag)")
+    tstm = ptab.get(ord("t"), [])
+    dots = [c for s_ in tstm for c in A.calls_in(s_) if A.callee_name(c) in ("strchr", "strrchr", "memchr") and A.int_literal(A.kids(c)[2]) == ord(".")]
+    fmtcalls = [c for s_ in tstm for c in A.calls_in(s_) if A.callee_name(c) in ("asnprintf", "snprintf", "sprintf") and
+                any((A.string_literal(a) or "").count("%%") >= 1 and "%d" in (A.string_literal(a) or "") for a in A.kids(c)[1:])]
+    ctx.require(len(dots) == 1 and len(fmtcalls) == 1, "R10.12: the '.' search (%d) / format construction (%d) of the time-tag printer was not found" % (len(dots), len(fmtcalls)))
+    fc = fmtcalls[0]
+    fa = A.kids(fc)[1:]
+    li = [i_ for i_, a in enumerate(fa) if A.string_literal(a) and "%d" in A.string_literal(a)][0]
+    meta_fmt = A.string_literal(fa[li])
+    prec_arg = fa[li + 1]
+    pvid = A.ref_id(prec_arg)
+    pdecl = u.by_id.get(pvid) if pvid else None
+    ctx.require(pdecl is not None and pdecl.get("kind") == "VarDecl", "R10.12: the precision handed to the format construction is not a local variable")
+    # statements from the declaration of the precision variable up to the format construction
+    comp = None
+    for p_ in u.ancestors(pdecl):
+        if p_.get("kind") == "CompoundStmt":
+            comp = p_
+            break
+    ctx.require(comp is not None, "R10.12: enclosing block of the precision variable not found")
+    seq = []
+    started = False
+    for st in A.kids(comp):
+        if _inside10(st, pdecl):
+            started = True
+        if started:
+            if _inside10(st, fc):
+                break
+            seq.append(st)
+    bad12 = []
+    for pv in range(0, 10):
+        def hook12(n, ev, pv=pv):
+            if n.get("kind") == "MemberExpr" and n.get("name") == "floating_point_precision":
+                return pv
+            if n.get("kind") == "CallExpr":
+                return 0
+            return NotImplemented
+        ev12 = FD.Eval(node_hook=hook12)
+        try:
+            for st in seq:
+                if pvid in {y["referencedDecl"]["id"] for y in A.walk(st) if y.get("kind") == "DeclRefExpr"} or _inside10(st, pdecl):
+                    ev12.run(st)
+            val = ev12.env[pvid]
+        except (FD.Unknown, KeyError) as e:
+            raise AnalysisBroken("R10.12: precision bookkeeping not evaluable: %s" % e)
+        fmt12 = meta_fmt.replace("%%", "\0").replace("%d", str(val)).replace("\0", "%")
+        mm12 = re.search(r'%([#0 +-]*)(\d*)\.(\d+)l?[fF]', fmt12)
+        has_point = bool(mm12) and ("#" in mm12.group(1) or int(mm12.group(3)) > 0)
+        if not has_point:
+            bad12.append({"floating_point_precision": pv, "format": fmt12})
+    ctx.ob("R10.12", "time tag fraction", not bad12, site=A.where(dots[0]), detail={"format_of_format": meta_fmt, "precisions": 10, "without_decimal_point": bad12},
+           what="the time-tag printer searches the '.' in a fraction formatted with %s: there is none, the search result is null and is used (crash)" % [b_["format"] for b_ in bad12])
+
+
+def _inside10(root, node):
+    nid = node.get("id")
+    for x_ in A.walk(root):
+        if x_.get("id") == nid:
+            return True
+    return False
